@@ -9,7 +9,7 @@ From TLV Require Import Base.Shape Base.PyList Base.Tensor Base.Ops Model.Base M
      Proofs.SvdDecompHooi Proofs.SvdDecompHooiR Proofs.SvdDecompRanks
      Proofs.SvdDecompTuckerErr Proofs.SvdDecompTuckerBound Proofs.SvdDecompHosvdBound
      Proofs.SvdDecompPartial Proofs.SvdDecompTuckerGen Proofs.SvdDecompRingErr Proofs.SvdDecompTTMErr
-     Proofs.SvdDecompValidate.
+     Proofs.SvdDecompValidate Proofs.SvdDecompRingPartial Proofs.SvdDecompRingErrR.
 Import ListNotations.
 
 (* exactness of one TT-SVD step, over every commutative ring: truncating + sign-flipping a
@@ -558,3 +558,28 @@ Print Assumptions C09_validate_tt_rank_strict_realised.
 Example C09_nonvacuous_strict :
   validate_tt_rank_strict_code [2; 2; 7] [1; 3; 7; 1] = [1; 2; 4; 1] /\ realised_tt_rank [2; 2; 7] [1; 3; 7; 1] = [1; 2; 4; 1].
 Proof. split; reflexivity. Qed.
+
+(* tensor ring over R under the full SVD contract for every call: squared error = discarded squared singular values of the
+   first unfolding (rank[0]*rank[1] kept) + those of the working unfoldings of the loop, and at least each of them *)
+Theorem C09_tensor_ring_error_sigma_R : forall (svd : nat -> tensor R -> svdans) (X : tensor R) (rank : rank_spec)
+    (mode : nat) (cores : list (tensor R)),
+  tr_full_R svd X rank mode -> tensor_ring Rops svd X rank mode = Ok cores ->
+  tr_err2 Rops X cores = Rsum (tr_tail_list svd X rank mode) /\
+  (forall t, In t (tr_tail_list svd X rank mode) -> (t <= tr_err2 Rops X cores)%R).
+Proof. exact tensor_ring_error_sigma_R. Qed.
+Print Assumptions C09_tensor_ring_error_sigma_R.
+
+(* PARTIAL (Eckart-Young, eckart_young_stmt): the returned cores close into a ring with closing bond l, and for every cut
+   after b modes the squared error is at least the discarded tail, at l * (bond b) kept triplets, of the unfolding
+   (modes 0..b-1 | modes b..n-1) of X; no contract on the run's own oracle *)
+Theorem C09_tensor_ring_error_lower_partial : forall (svd : nat -> tensor R -> svdans),
+  eckart_young_stmt ->
+  forall (X : tensor R) (rank : rank_spec) (mode : nat) (cores : list (tensor R)),
+  tensor_ring Rops svd X rank mode = Ok cores ->
+  exists l, bonds l cores l /\
+    forall b aX, 0 < b -> b < ndim X ->
+      svd_full_contract (x_unfolding X b) (prod (firstn b (shape X))) (prod (skipn b (shape X)))
+                        (l * nth 2 (shape (nth (b - 1) cores (mk [] []))) 0) aX ->
+      (tail2 Rops (l * nth 2 (shape (nth (b - 1) cores (mk [] []))) 0%nat) (snd3 aX) <= tr_err2 Rops X cores)%R.
+Proof. exact tensor_ring_error_lower_partial. Qed.
+Print Assumptions C09_tensor_ring_error_lower_partial.
